@@ -138,6 +138,9 @@ func (ex *Exec) branch(c *Term, pos token.Pos, fr *frame) bool {
 	if v, ok := p.known[c.id]; ok {
 		return v
 	}
+	if ex.ifcDepth > 0 {
+		panic(ifcBail{"fork inside an if-converted region"})
+	}
 	ts := ex.ts
 	if p.pos < len(p.prefix) {
 		d := p.prefix[p.pos]
@@ -207,6 +210,9 @@ func (ex *Exec) branch(c *Term, pos token.Pos, fr *frame) bool {
 func (ex *Exec) concretize(t *Term, lo, hi int64, what string, pos token.Pos, fr *frame) int64 {
 	if v, ok := ex.constInt(t); ok {
 		return v
+	}
+	if ex.ifcDepth > 0 {
+		panic(ifcBail{"concretisation inside an if-converted region"})
 	}
 	t = ex.simp(t)
 	p := ex.path
